@@ -52,6 +52,9 @@ type c16Plan struct {
 	HeadFirst bool   `json:"head_first,omitempty"`  // fault none, chunked: the backend sends its head and waits until the client has it
 	// the routing step (req.URL = backend) sits between the state listener and the forwarder, on the same request object
 	RouteInside bool `json:"route_inside_listener,omitempty"`
+	// a middleware in front detached the request from the server's cancellation (context.WithoutCancel): the forwarder
+	// then learns about a departed client through http.CloseNotifier only
+	NoCancel bool `json:"context_without_cancel,omitempty"`
 }
 
 type c16Backend struct {
@@ -260,6 +263,14 @@ func (s *statusRec) WriteHeader(c int) {
 	s.mu.Unlock()
 	s.ResponseWriter.WriteHeader(c)
 }
+// CloseNotify: the server's writer can tell when the client has gone away; wrappers pass that on.
+func (s *statusRec) CloseNotify() <-chan bool {
+	if cn, ok := s.ResponseWriter.(http.CloseNotifier); ok {
+		return cn.CloseNotify()
+	}
+	return make(chan bool)
+}
+
 func (s *statusRec) Flush() {
 	if f, ok := s.ResponseWriter.(http.Flusher); ok {
 		f.Flush()
@@ -383,6 +394,10 @@ func c16Relay(c *Ctx) {
 			return
 		}
 		req.URL = &url.URL{Scheme: "http", Host: target, Path: req.URL.Path, RawQuery: req.URL.RawQuery}
+		if req.Header.Get("X-No-Cancel") != "" {
+			req.Header.Del("X-No-Cancel")
+			req = req.WithContext(context.WithoutCancel(req.Context()))
+		}
 		switch req.Header.Get("X-Behind") {
 		case "breaker":
 			req.Header.Del("X-Behind")
@@ -452,6 +467,10 @@ func c16Relay(c *Ctx) {
 		if (p.Fault == "none" || p.Fault == "refuse" || p.Fault == "close-after-request") && r.IntN(3) == 0 {
 			p.Behind = pick(r, []string{"breaker", "rebalancer"})
 		}
+		if p.Fault == "cancel-before-head" && r.IntN(3) == 0 {
+			p.Behind = "breaker"
+			p.NoCancel = r.IntN(2) == 0
+		}
 		p.ChunkSize = pick(r, []int{1, 7, 512, 4096, 65536, 0})
 		if p.BodyLen > 100000 && p.ChunkSize < 512 {
 			p.ChunkSize = 4096
@@ -495,6 +514,10 @@ func c16Relay(c *Ctx) {
 		req.Header.Set("X-Target", back.l.Addr().String())
 		if p.Fault == "stall-mid-head" {
 			req.Header.Set("X-Stall", "idle")
+		}
+		if p.NoCancel {
+			req.Header.Set("X-No-Cancel", "1")
+			c.Count("cases_with_context_without_cancel", 1)
 		}
 		if p.RouteInside {
 			req.Header.Set("X-Route-Inside", "1")
